@@ -15,17 +15,21 @@
                               theorem below that mentions [cte_read], [next_tok] or [lex_str].
    [Denote.den], [Denote.no_padding]   the meaning of "an equivalent stream carrying the same data"
                               (Model/Denote.v), as for C01.
-   [tree], [wf], [events_of]  the fragment of the structure theorem (Proofs/CteReadProofs.v): null, booleans,
-                              integers of every size and sign in all three scalar event forms, strings with
-                              arbitrary Unicode content, lists and maps nested to any depth, comments of both
-                              kinds between the items of a list and between the pairs of a map.
+   [tree], [wf], [events_of]  the fragment of the structure theorem (Proofs/CteReadProofs.v): null, booleans
+                              (OnBoolean and OnTrue / OnFalse), integers of every size and sign in all three
+                              scalar event forms, strings, resource ids and remote references with arbitrary
+                              Unicode content (OnArray and OnStringlikeArray), lists and maps nested to any
+                              depth, comments of both kinds between the items of a list and between the pairs
+                              of a map.
    Not covered by a theorem (correspondence and search only): floats (strconv / math/big), times
    (the model [date_text] / [time_text] mirrors the regular expressions of the listener and
-   compact_time's Validate / String), UIDs, typed arrays, media, custom types, resource ids, remote
-   references, records, edges, nodes, markers and references, comments at the top level and in value
-   position of a map. *)
+   compact_time's Validate / String), UIDs, typed arrays (also chunked strings), media, custom types,
+   records, edges, nodes, markers and references, comments at the top level and in value position of a map. *)
 From CE Require Import Model.CteRead Proofs.CteReadProofs.
 From CE Require Model.CteEnc Model.CteLit Model.Denote Model.Rules.
+Require Coq.Strings.String.
+Import String.StringSyntax.
+Delimit Scope string_scope with string.
 Open Scope N_scope.
 
 (* ---- 1. leaf round trips, for all values ---- *)
@@ -98,6 +102,32 @@ Theorem C02_block_comment_roundtrip :
     block_comment (t ++ 42 :: 47 :: rest) O p acc = Some (rev acc ++ t, rest).
 Proof. exact block_comment_reads. Qed.
 Print Assumptions C02_block_comment_roundtrip.
+
+(* Times.  The event carries compact_time's String(); the encoder writes the same text (correspondence);
+   [tz_text] / [time_text] are what parseTimezone / parseTime followed by Validate and String() make of it.
+   Every latitude / longitude zone written in hundredths is read back with the same hundredths (the code
+   rounds since the fix of the truncation defect; the model computes the hundredths exactly, and the
+   harness checks the float computation of the code against that on all 222,000 coordinate texts) ... *)
+Theorem C02_latlong_zone_roundtrip :
+  forall la lo, (-9000 <= la <= 9000)%Z -> (-18000 <= lo <= 18000)%Z ->
+    tz_text (tz_latlong la lo) = Some (tz_latlong la lo).
+Proof. exact tz_latlong_fixed. Qed.
+Print Assumptions C02_latlong_zone_roundtrip.
+
+(* ... every UTC offset (1 .. 1439 minutes, either sign) ... *)
+Theorem C02_offset_zone_roundtrip :
+  forall neg m, 1 <= m <= 1439 -> tz_text (tz_offset neg m) = Some (tz_offset neg m).
+Proof. exact tz_offset_fixed. Qed.
+Print Assumptions C02_offset_zone_roundtrip.
+
+(* ... and a time of day hh:mm:ss (no sub-second part) followed by such a zone text (or none) is read back as
+   itself.  Dates, timestamps, sub-second parts and area/location zones: correspondence and search only. *)
+Theorem C02_time_of_day_roundtrip :
+  forall h m s T, h < 24 -> m < 60 -> s <= 60 ->
+    (match T with [] => True | c :: _ => c = 47 \/ c = 43 \/ c = 45 end) -> tz_text T = Some T ->
+    time_text (hms h m s ++ T) = Some (hms h m s ++ T).
+Proof. exact time_text_fixed. Qed.
+Print Assumptions C02_time_of_day_roundtrip.
 
 (* ---- 2. structure ---- *)
 
@@ -200,8 +230,9 @@ Print Assumptions C02_cte_roundtrip_partial.
 (* ---- non-vacuity ---- *)
 
 (* a map with a comment, a string key holding e-acute, a line feed, a quote, the euro sign and an emoji, a
-   list with null, a boolean, 2^64, -0, -5, a multi-line comment, an empty list and an empty map, and an
-   integer key: well-formed, a value, and accepted by the validator model *)
+   list with null, two booleans (both event forms), a resource id, a remote reference, 2^64, -0, -5, a
+   multi-line comment, an empty list and an empty map, and an integer key: well-formed, a value, and
+   accepted by the validator model *)
 Example C02_example_hypotheses :
   wf ex_tree /\ is_value ex_tree = true /\ Rules.accepts_document Rules.default_rcfg (document (events_of ex_tree)) = true.
 Proof. exact (conj (proj1 ex_tree_wf) (conj (proj2 ex_tree_wf) ex_tree_accepted)). Qed.
@@ -216,6 +247,12 @@ Example C02_example_string :
   utf8_valid [107; 195; 169; 10; 34; 226; 130; 172] = true /\
   lex_string 0 (runes [107; 195; 169; 10; 92; 34; 226; 130; 172; 34; 32]) = Some ([107; 195; 169; 10; 34; 226; 130; 172], [32], O).
 Proof. vm_compute. split; reflexivity. Qed.
+
+Example C02_example_time :
+  tz_latlong 29 (-12345) = CteEnc.s2b "/0.29/-123.45"%string /\
+  time_text (hms 1 2 3 ++ tz_latlong 29 (-12345)) = Some (CteEnc.s2b "01:02:03/0.29/-123.45"%string) /\
+  time_text (CteEnc.s2b "1:02:03.50+0090"%string) = Some (CteEnc.s2b "01:02:03.5+0130"%string).
+Proof. vm_compute. repeat split. Qed.
 
 Example C02_example_comments :
   line_ok [97; 32; 47; 42; 98] = true /\ blk_plain PNone [97; 32; 42; 32; 47; 98; 42] = true /\
